@@ -166,7 +166,7 @@ def run(case):
 def gen_case(rng, tier, kind=None, dtype=None, vclass=None, style=None):
     dtype = dtype or rng.choice(rl.DT_RL)
     k = np.dtype(dtype).kind
-    vclass = vclass or rng.choice(["small", "small", "extreme"] + (["nonfinite", "nonfinite"] if k == "f" else []))
+    vclass = vclass or rng.choice(["small", "small", "extreme"] + (["nonfinite", "nonfinite", "close"] if k == "f" else []))
     if vclass == "nonfinite" and k != "f":
         vclass = "extreme"
     maxlen = 20 if tier == "quick" else 70
